@@ -18,9 +18,12 @@ import utype   # noqa: E402
 from utype.parser import base as _pbase, rule as _prule, field as _pfield, func as _pfunc, cls as _pcls   # noqa: E402
 from utype.utils import base as _ubase, transform as _utransform, compat as _ucompat   # noqa: E402
 
+# utype guards the first-use resolution with a lock: under the controlled scheduler it must be a cooperative one
+_pbase.threading = types.SimpleNamespace(RLock=e3.CoopRLock, Lock=e3.CoopRLock)
+
 ID = "C20"
 LEVEL = "model_checking"
-RULE = ("schedules: for each of 7 scenarios (first parse of classes with pending forward references - module level and "
+RULE = ("schedules: for each of 8 scenarios (first parse of classes with pending forward references - module level and "
         "function-local; first parse of mutually recursive classes from both ends; conversions racing a registration in "
         "the shared converter registry; first calls of a decorated function with forward-referenced types; concurrent "
         "decoration of one function) every interleaving of 2 (quick) / 3 (thorough) threads with at most 1 / 2 "
@@ -107,6 +110,17 @@ def new_converter(transformer, data, t):
     return t(('sub', data))
 '''
 
+SRC_CONSTRAINED = '''
+from utmc.ns import *
+class Order(Schema):
+    amount: 'Amount' = Field(le=100)
+    tags: List['Tag'] = Field(default_factory=list, max_length=2)
+class Amount(int, Rule):
+    ge = 0
+class Tag(str, Rule):
+    max_length = 3
+'''
+
 A_IN = {"v": "1", "bs": [{"w": "2", "a": {"v": 3}}], "ob": {"w": 4}}
 B_IN = {"w": "5", "a": {"v": 6, "bs": [{"w": 7}]}, "more": {"k": {"w": 8}}}
 B_LOCAL_IN = {"w": "5", "a": {"v": 6, "bs": [{"w": 7}]}}
@@ -131,6 +145,9 @@ SCENARIOS = {
     "function-first-call": (SRC_FUNC, ["F({'v': '1'}, [{'w': 2}])", "F({'v': 3})", "F({'v': '1'}, [{'w': 2}])"], "F({'v': 3})"),
     "concurrent-decoration": (SRC_RAW, ["utype.parse(raw)({'v': '1'}, '2')", "utype.parse(raw)({'v': 3})", "utype.parse(raw)({'v': '1'}, '2')"],
                               "utype.parse(raw)({'v': 3})"),
+    # a forward reference that also carries Field constraints: the window between "evaluated" and "constrained type built"
+    "constrained-forward-ref": (SRC_CONSTRAINED, ["Order(amount='50', tags=['ab'])", "Order(amount=500)", "Order(amount=5, tags=['a', 'b', 'c'])"],
+                                "Order(amount=101)"),
     "registry-race": (SRC_REG, ["type_transform(1, Sub)", "type_transform(2, Sub)", "utype.register_transformer(Sub)(new_converter) and None"],
                       "type_transform(2, Sub)"),
 }
